@@ -48,7 +48,8 @@ pub fn gen(prop: Prop, seed: u64, run: u64, tier: &str) -> Vec<Step> {
     if k > 0 && run % k == 3 && !steps.is_empty() {
         let mut r = crate::prng::Rng::new(seed, run, 97);
         let i = r.usize_below(steps.len());
-        let times = if r.chance(2, 3) { 65_540 } else { 300 };
+        // the selfcheck tier is also what Miri interprets: keep it short there
+        let times = if tier == "selfcheck" { 40 } else if r.chance(2, 3) { 65_540 } else { 300 };
         steps[i] = Step::Repeat { times, step: Box::new(steps[i].clone()) };
     }
     steps
